@@ -107,7 +107,10 @@ def step_rules(chk):
                     tuple(sorted(t for t in v.tags if not t.startswith(("ret:", "at#")))))
         a_, b_ = summ(am[0].args[0]), summ(r3.ret)
         okd = a_ == b_
-        inc = not okd          # not located by name and not recognisably the same array: no verdict
+        # not located by name and not recognisably the same array: no verdict -- unless the two arrays differ in their degree in the data
+        # (the error of another power): then they are different functions of the data
+        da, db = alg_degree(am[0].args[0].a(R)), alg_degree(r3.ret.a(R))
+        inc = not okd and not (da is not None and db is not None and da != db)
         der = "no call of the error routine; argmin over %s; calc_step_fn_vals_error(values) returns %s" % (a_, b_)
     chk.ob("R-STEP-LEVELS", c + "{default split}", "default split = argmin(calc_step_fn_vals_error(values))", okd, derived=der, loc=r2.fi.loc(),
            inconclusive=inc)
